@@ -46,7 +46,7 @@ const (
 const MaxTasks = 8192
 
 // maxLive bounds the number of tasks that are alive at the same time.
-const maxLive = 512
+const maxLive = 4096
 
 // Abort is the sentinel panic value raised from a yield point when the task
 // is being torn down (budget exceeded, deadlock, end of run).
@@ -84,6 +84,7 @@ type Verdict struct {
 	StuckSpawned []int // godi-spawned tasks parked at that point (e.g. watchers)
 	StuckSites   []int
 	StepLimit    bool // run step cap reached
+	TaskLimit    bool // more than maxLive tasks alive at once / MaxTasks created
 }
 
 type Config struct {
@@ -180,17 +181,16 @@ func (s *Sim) AddClient(name string, user any, fn func(t *Task)) *Task {
 
 //go:norace
 func (s *Sim) newTask(name string, client bool, parent int) *Task {
-	if s.n >= MaxTasks {
-		panic("simrt: too many tasks")
+	if s.n >= MaxTasks || s.nl >= maxLive {
+		// nothing has been registered yet: unwinding through the caller is safe
+		s.verdict.TaskLimit = true
+		panic(&Abort{Reason: "task-limit"})
 	}
 	t := &Task{ID: s.n, Name: name, Client: client, Parent: parent,
 		wake: make(chan struct{}, 1), Ended: make(chan struct{}), state: stRunnable}
 	t.prio = 1000 + s.draw(StreamSched, 1000)
 	s.tasks[s.n] = t
 	s.n++
-	if s.nl >= maxLive {
-		panic("simrt: too many live tasks")
-	}
 	s.live[s.nl] = t
 	s.nl++
 	return t
